@@ -251,6 +251,12 @@ def harnesses(tier):
         for qs in ((0, 3), (3, 0), (1, 3), (3, 1), (0, 2)):
             cases.append(dict(n=4, program=[(g, qs)], allow=True))
             cases.append(dict(n=4, program=[("h", (qs[1],)), (g, qs)], allow=True))
+    # the same non-adjacent ordered pair used twice in one program (and a second time by another gate):
+    # whatever the converter keeps between two uses of a pair must not change the second placement
+    for allow in (True, False):
+        cases.append(dict(n=3, program=[("cx", (0, 2)), ("h", (0,)), ("cx", (0, 2))], allow=allow))
+        cases.append(dict(n=3, program=[("cz", (2, 0)), ("h", (1,)), ("cx", (2, 0))], allow=allow))
+    cases.append(dict(n=4, program=[("cx", (0, 3)), ("h", (0,)), ("cx", (0, 3))], allow=True))
     cases.append(dict(n=4, program=[("swap", (0, 3)), ("cx", (3, 1))], allow=True))
     cases.append(dict(n=4, program=[("cx", (0, 3)), ("cz", (3, 1))], allow=True))
     if tier != "quick":
